@@ -178,6 +178,56 @@ class SolveLoop:
         self._names = out
         return out
 
+    def path_lists(self):
+        """(path list name, times list name) - or (None, None) when solve() has no path collection at all.  If solve() reads
+        params.collect_path but the recording is not the list-append form the rules understand, nothing about the recorded
+        path can be decided: analysis error, never a silent pass."""
+        uses = any(isinstance(n, ast.Attribute) and n.attr == "collect_path" for n in own_nodes(self.fi.node))
+        n = self.names()
+        if uses and (n.get("path") is None or n.get("times") is None):
+            raise AnalysisError("Solver.solve reads params.collect_path, but the recorded path / model times are not kept in two lists appended to inside the main loop "
+                                "(path recording is not in a recognised form)")
+        return n.get("path"), n.get("times")
+
+    def recorders(self) -> List[str]:
+        """locals that exist only when the path is collected: bound before the main loop under a condition on params.collect_path
+        (`if params.collect_path: path = [...]`, `rec = Recorder(..) if params.collect_path else None`)."""
+        out = []
+        for s in self.ff.order:
+            if s.index >= self.loop_si.index or s.loops or not isinstance(s.stmt, (ast.Assign, ast.AnnAssign)):
+                continue
+            st = s.stmt
+            if isinstance(st, ast.AnnAssign) and st.value is None:
+                continue
+            cond = any("collect_path" in (f[1] + (f[2] or "")) for f in s.facts) or \
+                (isinstance(st.value, ast.IfExp) and "collect_path" in U(self.ff.resolved(st, st.value.test)))
+            isnone = isinstance(st.value, ast.Constant) and st.value.value is None
+            if cond and not isnone:
+                for t in (st.targets if isinstance(st, ast.Assign) else [st.target]):
+                    if isinstance(t, ast.Name) and t.id not in out:
+                        out.append(t.id)
+        return out
+
+    def recorder_updates(self) -> List[StmtInfo]:
+        """statements of the loop that call a method of a path recorder / path list (the places where the recorded path grows)."""
+        recs = set(self.recorders())
+        out = []
+        for s in self.ff.order:
+            if not self.in_loop(s) or isinstance(s.stmt, (ast.If, ast.For, ast.While, ast.Try, ast.With)):
+                continue
+            if any(isinstance(n, ast.Call) and isinstance(n.func, ast.Attribute) and isinstance(n.func.value, ast.Name) and n.func.value.id in recs for n in ast.walk(s.stmt)):
+                out.append(s)
+        return out
+
+    def path_appends(self) -> List[StmtInfo]:
+        pn, tn = self.path_lists()
+        out = []
+        for s in self.ff.order:
+            if self.in_loop(s) and isinstance(s.stmt, ast.Expr) and is_method_call(s.stmt.value, "append") and isinstance(s.stmt.value.func.value, ast.Name) \
+                    and s.stmt.value.func.value.id in (pn, tn):
+                out.append(s)
+        return out
+
     def stores_in_loop(self, name: Optional[str]) -> List[StmtInfo]:
         out = []
         if not name:
